@@ -86,6 +86,7 @@ func (ds *dataStore) copyStoreKeyUnlocked(srcKeyName, destKeyName string, dds *d
 	dds.dataObjectNumber++
 	newSk = sk.clone(dds.dataObjectNumber)
 	dds.data.store(destKeyName, newSk)
+	dds.unblockForNewListUnlocked(destKeyName, newSk)
 	return
 }
 
@@ -112,6 +113,7 @@ func (ds *dataStore) moveStoreKeyUnlocked(srcKeyName, destKeyName string, dds *d
 	dds.dataObjectNumber++
 	sk.id = dds.dataObjectNumber
 	dds.data.store(destKeyName, sk)
+	dds.unblockForNewListUnlocked(destKeyName, sk)
 
 	newSk = sk
 	return
@@ -133,6 +135,14 @@ func (ds *dataStore) leaveListBlock(ws *wakeSignal) {
 	ds.mu.Lock()
 	defer ds.mu.Unlock()
 	ds.waitingClients.disposeWakeSignal(ws)
+}
+
+// a list has appeared under keyName without a push (RENAME, COPY, RESTORE, SORT ... STORE): clients blocked
+// on that key are woken as if its elements had been pushed
+func (ds *dataStore) unblockForNewListUnlocked(keyName string, sk *storeKey) {
+	if list := sk.getList(); list != nil && list.count > 0 {
+		ds.unblockListUnlocked(keyName, list.count)
+	}
 }
 
 func (ds *dataStore) unblockListUnlocked(keyName string, elements int) {
